@@ -82,3 +82,70 @@ Definition C04_paths_cached_is_current_stmt : Prop :=
     let s := prun cfg pops in
     (In (id, o) (c_strong (cch s k)) \/ In (id, o) (c_weak (cch s k))) ->
     i_obsolete (get_inst s o) = false.
+
+(* ---------------------------------------------------------------- histories with injected database errors *)
+(* pguard04, also allowing a fault injected into any allowed base operation and into any access path *)
+Definition pguard04f (o : pop) : bool :=
+  match o with
+  | PBase o => guard04f o
+  | PPath _ => true
+  | PFaultPath _ _ => true
+  end.
+Definition pno_unpickle_f (o : pop) : bool :=
+  match o with PBase o => no_unpickle_f o | _ => true end.
+
+Definition C04_paths_unique_faults_stmt : Prop :=
+  forall cfg pops o1 o2 k id,
+    forallb pguard04f pops = true ->
+    let s := prun cfg pops in
+    held s o1 -> held s o2 -> current s o1 -> current s o2 ->
+    is_row s o1 k id -> is_row s o2 k id ->
+    assoc id (t_rows (tbl s k)) <> None ->
+    o1 = o2.
+
+Definition C04_paths_get_returns_held_faults_stmt : Prop :=
+  forall cfg pops o k id id' tok s',
+    forallb pguard04f pops = true ->
+    let s := prun cfg pops in
+    held s o -> current s o -> is_row s o k id ->
+    assoc id (t_rows (tbl s k)) <> None ->
+    pstep cfg s (PBase (OGet k id)) = (Ret (RObj id' tok), s') ->
+    id' = id /\ tok = slot_of s o /\ tok <> None.
+
+Definition C04_fk_returns_held_faults_stmt : Prop :=
+  forall cfg pops h k' o id' tok s',
+    forallb pguard04f pops = true ->
+    let s := prun cfg pops in
+    held s o -> current s o -> is_row s o k' id' ->
+    assoc id' (t_rows (tbl s k')) <> None ->
+    pstep cfg s (PPath (PFk h k')) = (Ret (RObj id' tok), s') ->
+    tok = slot_of s o /\ tok <> None.
+
+Definition C04_join_returns_held_faults_stmt : Prop :=
+  forall cfg pops h k' keep o id res tok s',
+    forallb pguard04f pops = true ->
+    let s := prun cfg pops in
+    held s o -> current s o -> is_row s o k' id ->
+    pstep cfg s (PPath (PJoin h k' keep)) = (Ret (RObjs res), s') ->
+    In (id, tok) res -> tok = slot_of s o /\ tok <> None.
+
+Definition C04_fk_deleted_not_returned_faults_stmt : Prop :=
+  forall cfg pops h k' id' tok s',
+    forallb pguard04f pops = true -> forallb pno_unpickle_f pops = true ->
+    let s := prun cfg pops in
+    pstep cfg s (PPath (PFk h k')) = (Ret (RObj id' tok), s') ->
+    assoc id' (t_rows (tbl s' k')) <> None.
+
+Definition C04_paths_cached_is_current_faults_stmt : Prop :=
+  forall cfg pops k id o,
+    forallb pguard04f pops = true ->
+    let s := prun cfg pops in
+    (In (id, o) (c_strong (cch s k)) \/ In (id, o) (c_weak (cch s k))) ->
+    i_obsolete (get_inst s o) = false.
+
+Definition C06_paths_no_unregistered_rows_stmt : Prop :=
+  forall cfg pops k id o,
+    forallb pguard04f pops = true -> forallb pno_unpickle_f pops = true ->
+    let s := prun cfg pops in
+    (In (id, o) (c_strong (cch s k)) \/ In (id, o) (c_weak (cch s k))) ->
+    i_obsolete (get_inst s o) = false /\ assoc id (t_rows (tbl s k)) <> None.
